@@ -26,6 +26,9 @@ type EP struct {
 	Status   string `json:"status"`
 	Priority int    `json:"priority"`
 	Conns    int    `json:"conns"`
+	// URLForm: how the endpoint URL is written: "" = http://host:80, "slash" = with a trailing
+	// slash, "path" = with a base path, "pathslash" = base path with a trailing slash
+	URLForm string `json:"url_form,omitempty"`
 }
 
 // EPList draws 0..maxN endpoint descriptions.
@@ -37,6 +40,7 @@ func EPList(t *rapid.T, minN, maxN int) []EP {
 			Status:   string(rapid.SampledFrom(weightedStatuses).Draw(t, "status")),
 			Priority: rapid.IntRange(0, 3).Draw(t, "priority"),
 			Conns:    rapid.IntRange(0, 20).Draw(t, "conns"),
+			URLForm:  rapid.SampledFrom([]string{"", "", "", "slash", "path", "pathslash"}).Draw(t, "urlform"),
 		}
 	}
 	return out
@@ -47,6 +51,14 @@ func Build(eps []EP, tag string) []*domain.Endpoint {
 	out := make([]*domain.Endpoint, len(eps))
 	for i, e := range eps {
 		us := fmt.Sprintf("http://%s-ep%d.invalid:80", tag, i)
+		switch e.URLForm {
+		case "slash":
+			us += "/"
+		case "path":
+			us += "/api/v1"
+		case "pathslash":
+			us += "/api/v1/"
+		}
 		u, _ := url.Parse(us)
 		out[i] = &domain.Endpoint{
 			Name: fmt.Sprintf("%s-ep%d", tag, i), URL: u, URLString: us,
